@@ -288,6 +288,37 @@ func (ex *Exec) model(g *G, fr *Frame, fn *ssa.Function, name string, args []Val
 		return true, ts.BV(uint64(int64(strings.Index(ex.cstr(args[0], name), ex.cstr(args[1], name)))), 64)
 	case "strings.Count":
 		return true, ts.BV(uint64(int64(strings.Count(ex.cstr(args[0], name), ex.cstr(args[1], name)))), 64)
+	case "strings.LastIndex":
+		return true, ts.BV(uint64(int64(strings.LastIndex(ex.cstr(args[0], name), ex.cstr(args[1], name)))), 64)
+	case "strings.IndexByte":
+		return true, ts.BV(uint64(int64(strings.IndexByte(ex.cstr(args[0], name), byte(ex.concInt(args[1].(*Term), "byte"))))), 64)
+	case "strings.EqualFold":
+		return true, ts.Bool(strings.EqualFold(ex.cstr(args[0], name), ex.cstr(args[1], name)))
+	case "strings.Compare":
+		return true, ts.BV(uint64(int64(strings.Compare(ex.cstr(args[0], name), ex.cstr(args[1], name)))), 64)
+	case "strings.ToUpper":
+		return true, ex.concStr(strings.ToUpper(ex.cstr(args[0], name)))
+	case "strings.Fields":
+		return true, ex.strSlice(strings.Fields(ex.cstr(args[0], name)))
+	case "strings.TrimFunc", "strings.Map":
+		ex.unsupported(name)
+	case "path/filepath.Ext":
+		return true, ex.concStr(filepath.Ext(ex.cstr(args[0], name)))
+	case "path/filepath.ToSlash":
+		return true, ex.concStr(filepath.ToSlash(ex.cstr(args[0], name)))
+	case "path/filepath.FromSlash":
+		return true, ex.concStr(filepath.FromSlash(ex.cstr(args[0], name)))
+	case "path/filepath.VolumeName":
+		return true, ex.concStr(filepath.VolumeName(ex.cstr(args[0], name)))
+	case "path/filepath.Split":
+		d, f := filepath.Split(ex.cstr(args[0], name))
+		return true, TupleV{ex.concStr(d), ex.concStr(f)}
+	case "path/filepath.Rel":
+		r, err := filepath.Rel(ex.cstr(args[0], name), ex.cstr(args[1], name))
+		if err != nil {
+			return true, TupleV{ex.concStr(""), ex.newError(ex.concStr("filepath.Rel: "+err.Error()), nil)}
+		}
+		return true, TupleV{ex.concStr(r), &IfaceV{}}
 	case "strings.ToLower":
 		return true, ex.concStr(strings.ToLower(ex.cstr(args[0], name)))
 	case "strings.SplitAfter", "strings.Split":
@@ -334,8 +365,6 @@ func (ex *Exec) model(g *G, fr *Frame, fn *ssa.Function, name string, args []Val
 		return true, ex.concStr(strconv.Quote(ex.cstr(args[0], name)))
 	case "strconv.Itoa":
 		return true, ex.concStr(strconv.Itoa(ex.concInt(args[0].(*Term), "Itoa")))
-	case "sort.Strings", "sort.Ints":
-		ex.unsupported(name)
 	}
 	return false, nil
 }
